@@ -1409,7 +1409,9 @@ func (nn *nonNeg) value(v ssa.Value, at ssa.Instruction, depth int) bool {
 					xs = add.Y
 				}
 			}
-			return geGuard(at, xs, x.Y) || geGuard(at, x.X, x.Y)
+			// ... and y itself is not negative: with a very negative y the difference wraps around to a
+			// negative number although x >= y (a range from -2 to the largest int)
+			return (geGuard(at, xs, x.Y) || geGuard(at, x.X, x.Y)) && nn.value(x.Y, at, depth+1)
 		case token.AND:
 			return nn.value(x.X, at, depth+1) || nn.value(x.Y, at, depth+1)
 		}
@@ -1542,6 +1544,12 @@ func runP8(p *an.Prog, r *an.Result) {
 					continue
 				}
 				if nn.value(s, in, 0) {
+					// a size that a module function computes from numbers (the element count of a range) also needs a
+					// ceiling: make panics above the largest allocation, and the process dies before that
+					if why := computedSizeUnbounded(p, fn, in, s); why != "" {
+						r.Bad(name, construct+": no upper bound", an.InstrPos(in), fmt.Sprintf("%s allocates %s elements, a number %s, and nothing holds it below a constant: (1..1000000000000000) makes make panic with 'cap out of range'", an.FuncName(fn), describe(p, s), why))
+						continue
+					}
 					r.OK(name, construct, an.InstrPos(in), "the size is a length/count, a sum or product of such, a clamp, or guarded >= 0 on every path")
 				} else {
 					r.Bad(name, construct, an.InstrPos(in), fmt.Sprintf("%s allocates with a size that is not shown to be non-negative (%s): a negative size panics", an.FuncName(fn), describe(p, s)))
@@ -2471,4 +2479,302 @@ func returnsKeyListOf(p *an.Prog, fn *ssa.Function) bool {
 func isBoolType(t types.Type) bool {
 	b, ok := t.Underlying().(*types.Basic)
 	return ok && b.Info()&types.IsBoolean != 0
+}
+
+// computedSizeUnbounded: s is the result of a module function whose result is arithmetic on numbers that
+// are not lengths of things in memory (fields, parameters), and neither a dominating test here nor one at
+// every call site of fn compares that result with a constant ceiling. Returns what the size is, or "".
+func computedSizeUnbounded(p *an.Prog, fn *ssa.Function, at ssa.Instruction, s ssa.Value) string {
+	var call *ssa.Call
+	for _, o := range an.Origins(s, an.StepValue) {
+		if c, ok := o.(*ssa.Call); ok {
+			if callee := c.Call.StaticCallee(); callee != nil && p.InModule(callee) && arithmeticOnFields(callee) {
+				call = c
+			}
+		}
+	}
+	if call == nil {
+		return ""
+	}
+	callee := call.Call.StaticCallee()
+	ceiling := func(in ssa.Instruction, same func(c *ssa.Call) bool) bool {
+		for _, g := range an.GuardsAtInstr(in) {
+			b, ok := g.Cond.(*ssa.BinOp)
+			if !ok {
+				continue
+			}
+			for _, pr := range [][2]ssa.Value{{b.X, b.Y}, {b.Y, b.X}} {
+				c, isCall := an.Strip(pr[0]).(*ssa.Call)
+				if !isCall || !same(c) {
+					continue
+				}
+				if _, isC := an.ConstInt(pr[1]); !isC {
+					continue
+				}
+				op := b.Op
+				if pr[0] == b.Y { // constant on the left: flip
+					switch op {
+					case token.LSS:
+						op = token.GTR
+					case token.LEQ:
+						op = token.GEQ
+					case token.GTR:
+						op = token.LSS
+					case token.GEQ:
+						op = token.LEQ
+					}
+				}
+				if (op == token.LSS || op == token.LEQ) && g.True || (op == token.GTR || op == token.GEQ) && !g.True {
+					return true
+				}
+			}
+		}
+		return false
+	}
+	if ceiling(at, func(c *ssa.Call) bool {
+		return c == call || c.Call.StaticCallee() == callee && len(c.Call.Args) > 0 && len(call.Call.Args) > 0 && sameValue(c.Call.Args[0], call.Call.Args[0])
+	}) {
+		return ""
+	}
+	// at every call site of fn, on the argument that is fn's receiver/parameter the size is computed from
+	if len(call.Call.Args) > 0 {
+		if par, ok := an.Deref(call.Call.Args[0]).(*ssa.Parameter); ok && par.Parent() == fn {
+			idx := -1
+			for i, pp := range fn.Params {
+				if pp == par {
+					idx = i
+				}
+			}
+			sites := callSitesOf(p, fn)
+			if idx >= 0 && len(sites) > 0 {
+				all := true
+				for _, site := range sites {
+					if idx >= len(site.Call.Args) {
+						all = false
+						break
+					}
+					arg := site.Call.Args[idx]
+					if !ceiling(site, func(c *ssa.Call) bool {
+						return c.Call.StaticCallee() == callee && len(c.Call.Args) > 0 && (sameValue(c.Call.Args[0], arg) || an.Deref(c.Call.Args[0]) == an.Deref(arg))
+					}) {
+						all = false
+					}
+				}
+				if all {
+					return ""
+				}
+			}
+		}
+	}
+	return "computed by " + an.FuncName(callee) + " from its operands"
+}
+
+// arithmeticOnFields: some result of f is a sum or difference whose operands include a field or parameter
+// read (not a length): the element count of a range.
+func arithmeticOnFields(f *ssa.Function) bool {
+	if f.Blocks == nil || f.Signature.Results().Len() != 1 {
+		return false
+	}
+	if b, ok := f.Signature.Results().At(0).Type().Underlying().(*types.Basic); !ok || b.Info()&types.IsInteger == 0 {
+		return false
+	}
+	found := false
+	an.EachInstr(f, func(in ssa.Instruction) {
+		ret, ok := in.(*ssa.Return)
+		if !ok {
+			return
+		}
+		for _, o := range an.Origins(ret.Results[0], an.StepValue) {
+			b, ok := o.(*ssa.BinOp)
+			if !ok || (b.Op != token.ADD && b.Op != token.SUB && b.Op != token.MUL) {
+				continue
+			}
+			lf := linOf(b, 0)
+			for a := range lf.coef {
+				switch x := a.(type) {
+				case *ssa.Field, *ssa.Parameter:
+					found = true
+				case *ssa.UnOp:
+					if _, isFA := x.X.(*ssa.FieldAddr); isFA {
+						found = true
+					}
+				}
+			}
+		}
+	})
+	return found
+}
+
+// ---------------------------------------------------------------------------
+// P14
+
+func init() {
+	register("P14", "reflect.Value.IsNil is called only on a value of a kind that can be nil (chan, func, interface, map, pointer, slice): established by a test of its kind, by what produced it (a method value, ValueOf of a statically nilable type), or at every call site of the function it is a parameter of; on any other kind IsNil panics", runP14)
+}
+
+var nilableKinds = map[int64]bool{18: true, 19: true, 20: true, 21: true, 22: true, 23: true, 26: true}
+
+func runP14(p *an.Prog, r *an.Result) {
+	roles := GetRoles(p)
+	var nilable func(fn *ssa.Function, at ssa.Instruction, rv ssa.Value, depth int) string
+	nilable = func(fn *ssa.Function, at ssa.Instruction, rv ssa.Value, depth int) string {
+		if depth > 3 {
+			return ""
+		}
+		// (a) a test of the value's kind on every path (the arms of a case with several kinds are several tests)
+		kindGuard := func(cond ssa.Value, taken bool) string {
+			b, ok := cond.(*ssa.BinOp)
+			if !ok || !(b.Op == token.EQL && taken || b.Op == token.NEQ && !taken) {
+				return ""
+			}
+			for _, pair := range [][2]ssa.Value{{b.X, b.Y}, {b.Y, b.X}} {
+				k, isC := an.ConstInt(pair[1])
+				if !isC || !nilableKinds[k] || !isPkgType(pair[0].Type(), "reflect", "Kind") {
+					continue
+				}
+				for _, ko := range an.Origins(pair[0], an.StepValue) {
+					c := an.CallOf(ko)
+					if c == nil {
+						continue
+					}
+					if an.CallName(c) == "(reflect.Value).Kind" && len(c.Args) == 1 && sameRef(c.Args[0], rv) {
+						return "under a test that its kind can be nil"
+					}
+					// the kind of the type of the same Go value: reflect.TypeOf(x).Kind() for rv = reflect.ValueOf(x),
+					// or rv.Type().Kind()
+					if cn := an.CallName(c); (cn == "(reflect.Type).Kind" || cn == "(*reflect.rtype).Kind") && c.IsInvoke() || cn == "(reflect.Type).Kind" {
+						tv := c.Value
+						if !c.IsInvoke() && len(c.Args) > 0 {
+							tv = c.Args[0]
+						}
+						for _, to := range an.Origins(tv, an.StepValue) {
+							tc := an.CallOf(to)
+							if tc == nil {
+								continue
+							}
+							if an.CallName(tc) == "(reflect.Value).Type" && len(tc.Args) == 1 && sameRef(tc.Args[0], rv) {
+								return "under a test that the kind of its type can be nil"
+							}
+							if an.CallName(tc) == "reflect.TypeOf" {
+								for _, ro := range an.Origins(rv, an.StepValue) {
+									if rc := an.CallOf(ro); rc != nil && an.CallName(rc) == "reflect.ValueOf" && sameValue(an.StripIface(rc.Args[0]), an.StripIface(tc.Args[0])) {
+										return "under a test that the kind of the same value's type can be nil"
+									}
+								}
+							}
+						}
+					}
+					// a join of two kinds that is this kind only when both are
+					if callee := c.StaticCallee(); callee != nil && p.InModule(callee) && len(c.Args) == 2 {
+						if t := kindTableOf(p, callee, 0); t.ok {
+							for pos, a := range c.Args {
+								kc := an.CallOf(a)
+								if kc == nil || an.CallName(kc) != "(reflect.Value).Kind" || len(kc.Args) != 1 || !sameRef(kc.Args[0], rv) {
+									continue
+								}
+								all := true
+								for pr, v := range t.val {
+									if v == k && !nilableKinds[pr[pos]] {
+										all = false
+									}
+								}
+								if all {
+									return "under a test of the joined kind, which is that kind only for two values of a kind that can be nil"
+								}
+							}
+						}
+					}
+				}
+			}
+			return ""
+		}
+		why := ""
+		if an.AllPathsGuarded(at.Block(), func(cond ssa.Value, taken bool) bool {
+			if w := kindGuard(cond, taken); w != "" {
+				why = w
+				return true
+			}
+			return false
+		}) {
+			return why
+		}
+		// (b) what produced it
+		for _, o := range an.Origins(rv, an.StepValue) {
+			c := an.CallOf(o)
+			if c == nil {
+				continue
+			}
+			switch an.CallName(c) {
+			case "(reflect.Value).MethodByName", "(reflect.Value).Method":
+				return "a method value (kind Func)"
+			case "reflect.ValueOf":
+				if mi, ok := c.Args[0].(*ssa.MakeInterface); ok {
+					switch mi.X.Type().Underlying().(type) {
+					case *types.Pointer, *types.Map, *types.Slice, *types.Chan, *types.Signature:
+						return "ValueOf a statically nilable type"
+					}
+				}
+			}
+		}
+		// (c) a parameter: at every call site
+		if par, ok := rv.(*ssa.Parameter); ok && par.Parent() == fn {
+			idx := -1
+			for i, pp := range fn.Params {
+				if pp == par {
+					idx = i
+				}
+			}
+			sites := callSitesOf(p, fn)
+			if idx >= 0 && len(sites) > 0 {
+				for _, s := range sites {
+					if idx >= len(s.Call.Args) || nilable(s.Parent(), s, s.Call.Args[idx], depth+1) == "" {
+						return ""
+					}
+				}
+				return "at every call site the argument is of a kind that can be nil"
+			}
+		}
+		return ""
+	}
+	for _, fn := range p.Funcs {
+		if fn.Blocks == nil || isMainPkg(fn) || fn.Pkg == nil || p.IsGenerated(an.FuncPos(fn)) {
+			continue
+		}
+		name := roles.Label(fn)
+		an.EachInstr(fn, func(in ssa.Instruction) {
+			c, ok := in.(*ssa.Call)
+			if !ok || an.CallName(&c.Call) != "(reflect.Value).IsNil" || len(c.Call.Args) != 1 {
+				return
+			}
+			r.Counts["IsNil calls"]++
+			rv := c.Call.Args[0]
+			construct := "(reflect.Value).IsNil on " + describe(p, rv)
+			if why := nilable(fn, in, rv, 0); why != "" {
+				r.OK(name, construct, c.Pos(), why)
+			} else {
+				r.Bad(name, construct, c.Pos(), fmt.Sprintf("%s calls IsNil on a reflect.Value whose kind is not known to be one that can be nil: for an int, a string, a struct it panics (the second result of time.Time.Zone)", an.FuncName(fn)))
+			}
+		})
+	}
+	r.Floor("IsNil calls", 3)
+}
+
+// sameRef: the same reflect.Value: the same SSA value, the same derivation (sameRV), or two reads of the
+// same element of the same slice at the same constant index (results[1] read twice).
+func sameRef(a, b ssa.Value) bool {
+	if a == b || sameRV(a, b) {
+		return true
+	}
+	la, ok1 := a.(*ssa.UnOp)
+	lb, ok2 := b.(*ssa.UnOp)
+	if ok1 && ok2 && la.Op == token.MUL && lb.Op == token.MUL {
+		ia, ok3 := la.X.(*ssa.IndexAddr)
+		ib, ok4 := lb.X.(*ssa.IndexAddr)
+		if ok3 && ok4 && ia.X == ib.X {
+			ka, okA := an.ConstInt(ia.Index)
+			kb, okB := an.ConstInt(ib.Index)
+			return okA && okB && ka == kb
+		}
+	}
+	return false
 }
